@@ -217,21 +217,35 @@ class Sim:
             return str(obj.args[0]) if obj.args else "?"
         return str(obj)
 
-    def _wait_like(self, fn):
-        from rpyc.core.async_ import AsyncResultTimeout
-        try:
-            r = fn()
-        except AsyncResultTimeout:
-            return "TO"
-        except Hang:
-            return "HANG"
-        except Spin:
-            return "SPIN"
-        except KeyError as ex:
-            return "exc:" + self._payload(ex)
-        return r
-
     def apply(self, tok):
+        """one event on the real objects -> `<observation>@<instant>`.  Whatever the real code raises is an observation:
+        the timeout error (`TO`, from wait / value / sync_request only), the stored remote exception itself (`exc:<payload>`,
+        from value / sync_request only), anything else `raised:<class>`; nothing propagates into the harness."""
+        from rpyc.core.async_ import AsyncResultTimeout
+        c = tok[0]
+        try:
+            out = self._event(tok)
+        except BadSequence:
+            raise
+        except Hang:
+            out = "HANG"
+        except Spin:
+            out = "SPIN"
+        except Exception as ex:  # noqa
+            stored = getattr(self.res, "_obj", None)
+            if c in "vwY" and isinstance(ex, AsyncResultTimeout) and ex is not stored:
+                out = "TO"
+            elif c in "vY" and ex is stored:
+                out = "exc:" + self._payload(ex)
+            else:
+                out = "raised:" + type(ex).__name__
+        res = self.res
+        self.chan.idle_polls = 0
+        if res._is_ready and self.ra_for is not res and self.reply_times:
+            self.ra, self.ra_for = self.reply_times[-1], res
+        return "%s@%s" % (out, fmt_t(self.clock.now))
+
+    def _event(self, tok):
         c, res = tok[0], self.res
         if c == "X":
             res.set_expiry(parse_tau(tok[1:]))
@@ -252,22 +266,21 @@ class Sim:
             res.add_callback(CB(int(tok[1:]), self))
             out = "-"
         elif c == "r":
-            out = self._wait_like(lambda: tri(res.ready))
+            out = tri(res.ready)
         elif c == "e":
-            out = self._wait_like(lambda: tri(res.error))
+            out = tri(res.error)
         elif c == "x":
             out = tri(res.expired)
         elif c == "v":
-            out = self._wait_like(lambda: "val:" + self._payload(res.value))
+            out = "val:" + self._payload(res.value)
         elif c == "w":
-            out = self._wait_like(lambda: "-" if res.wait() is None else "?")
+            out = "-" if res.wait() is None else "?"
         elif c == "T":
             self.clock.sleep(int(tok[1:]))
             out = "-"
         elif c == "Y":
             self.conn._config["sync_request_timeout"] = parse_tau(tok[1:])
-            out = self._wait_like(lambda: "val:" + self._payload(
-                self.conn.sync_request(self.consts.HANDLE_PING, "x")))
+            out = "val:" + self._payload(self.conn.sync_request(self.consts.HANDLE_PING, "x"))
         elif c == "Q":
             self.res = self.conn.async_request(self.consts.HANDLE_PING, "x", timeout=parse_tau(tok[1:]))
             out = "-"
@@ -290,12 +303,8 @@ class Sim:
             self.res = self.wrapper()
             out = "-"
         else:
-            raise ValueError("bad token %r" % tok)
-        res = self.res
-        self.chan.idle_polls = 0
-        if res._is_ready and self.ra_for is not res and self.reply_times:
-            self.ra, self.ra_for = self.reply_times[-1], res
-        return "%s@%s" % (out, fmt_t(self.clock.now))
+            raise BadSequence("bad token %r" % tok)
+        return out
 
     def state(self):
         res = self.res
@@ -314,11 +323,12 @@ class Sim:
         r = self.res
         return (self.clock.now, list(self.chan.queue), r._is_ready, r._is_exc, r._obj, list(r._callbacks), r._ttl,
                 dict(self.conn._request_callbacks), len(self.cblog), len(self.busy), len(self.reply_times), self.ra,
-                self.ra_for)
+                self.ra_for, r._conn)
 
     def restore(self, s):
         r = self.res
-        (self.clock.now, q, r._is_ready, r._is_exc, r._obj, cbs, r._ttl, rc, n1, n2, n3, self.ra, self.ra_for) = s
+        (self.clock.now, q, r._is_ready, r._is_exc, r._obj, cbs, r._ttl, rc, n1, n2, n3, self.ra, self.ra_for,
+         r._conn) = s
         self.chan.queue[:] = q
         r._callbacks[:] = cbs
         self.conn._request_callbacks.clear()
@@ -584,28 +594,35 @@ def run_scenario_simnet(kind, tau, pre, k, post, ops):
                     return "TO"
                 except Spin:
                     return "SPIN"
+                except Exception as ex:  # noqa
+                    return "raised:" + type(ex).__name__
             if kind == "sync":
                 ca._config["sync_request_timeout"] = tau
                 out.append(waitlike(lambda: "val:%s" % work(pre, cbarg, post)) + "@" + rel())
                 ca._config["sync_request_timeout"] = 30
             else:
-                tw = rpyc.timed(work, tau)
-                res = tw(pre, cbarg, post)
-                out.append("-@" + rel())
+                try:
+                    tw = rpyc.timed(work, tau)
+                    res = tw(pre, cbarg, post)
+                except Exception as ex:  # noqa   (an observation, and nothing further can be asked of this scenario)
+                    out.append("raised:%s@%s" % (type(ex).__name__, rel()))
+                    ops = ()
+                else:
+                    out.append("-@" + rel())
                 for op in ops:
                     if op[0] == "T":
                         rpyc.lib.time.sleep(int(op[1:]))
                         o = "-"
                     elif op[0] == "C":
                         cid = int(op[1:])
-                        res.add_callback(lambda r, cid=cid: cblog.append("%d@%s" % (cid, rel())))
-                        o = "-"
+                        o = waitlike(lambda: res.add_callback(
+                            lambda r, cid=cid: cblog.append("%d@%s" % (cid, rel()))) or "-")
                     elif op == "r":
                         o = waitlike(lambda: tri(res.ready))
                     elif op == "e":
                         o = waitlike(lambda: tri(res.error))
                     elif op == "x":
-                        o = tri(res.expired)
+                        o = waitlike(lambda: tri(res.expired))
                     elif op == "v":
                         o = waitlike(lambda: "val:%s" % res.value)
                     elif op == "w":
@@ -702,16 +719,24 @@ def run_reuse_simnet(steps):
                     return "TO"
                 except Spin:
                     return "SPIN"
+                except Exception as ex:  # noqa
+                    return "raised:" + type(ex).__name__
             for st in steps:
                 k = st[0]
-                if k == "W":
-                    tw = rpyc.timed(work, st[1]); o = "-"
+                if k in "WKQ":
+                    try:
+                        if k == "W":
+                            tw = rpyc.timed(work, st[1])
+                        elif k == "K":
+                            res = tw(st[1])
+                        else:
+                            res = ca.async_request(consts.HANDLE_CALL, work, (st[2],), (), timeout=st[1])
+                        o = "-"
+                    except Exception as ex:  # noqa
+                        out.append("raised:%s@%s" % (type(ex).__name__, fmt_t(net.clock.now - t0)))
+                        break
                 elif k == "T":
                     rpyc.lib.time.sleep(st[1]); o = "-"
-                elif k == "K":
-                    res = tw(st[1]); o = "-"
-                elif k == "Q":
-                    res = ca.async_request(consts.HANDLE_CALL, work, (st[2],), (), timeout=st[1]); o = "-"
                 elif k == "Y":
                     ca._config["sync_request_timeout"] = st[1]
                     o = guarded(lambda: "val:%s" % work(st[2]))
@@ -719,7 +744,7 @@ def run_reuse_simnet(steps):
                 elif k == "v":
                     o = guarded(lambda: "val:%s" % res.value)
                 elif k == "x":
-                    o = tri(res.expired)
+                    o = guarded(lambda: tri(res.expired))
                 elif k == "V":
                     guarded(lambda: ca.serve(0)); o = "-"
                 out.append("%s@%s" % (o, fmt_t(net.clock.now - t0)))
@@ -932,6 +957,9 @@ def oracle_sequence(t0, toks):
             obs = sim.apply(tok).rsplit("@", 1)[0]
             now = sim.clock.now
             res = sim.res
+            if obs.startswith("raised:"):
+                return ("event %d (%s): raised %s; an operation on a result only ever returns, raises the stored exception "
+                        "(value) or the timeout error (wait/value)" % (i, tok, obs[7:]))
             if c == "X":
                 tau = parse_tau(tok[1:])
                 if outcome == ("expired",):
@@ -1054,7 +1082,7 @@ def shrink(t0, toks, pred):
 
 def signature_of(msg):
     m = msg.split("): ", 1)[-1]
-    for key in ("before the expiry", "not accepted", "callbacks", "callback", "changed", "became ready", "timeout raised",
+    for key in ("raised", "before the expiry", "not accepted", "callbacks", "callback", "changed", "became ready", "timeout raised",
                 "timeout error without", "while pending", "expired result", "ready result", "sync_request"):
         if key in m:
             return "c15:" + key.replace(" ", "-")
